@@ -483,7 +483,10 @@ def stage_direct(ctx, pq, w):
         else:
             cmds.append(("run_v2", False, ro, eo, len(rows), [[p, nr] for p, (_, _, _, nr) in zip(mp, pages)]))
         cmds.append(("shred", ro, eo, m_rows(rows, vt)))
-        cmds.append(("split_guard", ro, eo, mp))
+        if v == 1:
+            cmds.append(("split_guard", ro, eo, mp))
+        else:
+            cmds.append(("v2_guard", ro, eo, [[p, nr] for p, (_, _, _, nr) in zip(mp, pages)]))
         metas.append((ro, eo, rows, cuts, v, pages, vt, max_def))
     outs = pq.batch(cmds)
     small = [k for k in range(len(cmds)) if len(json.dumps(cmds[k], default=repr)) < 400]
@@ -501,6 +504,11 @@ def stage_direct(ctx, pq, w):
                            [[list(map(int, e)) for e in sh[0]], [int(x) for x in sh[1]]],
                            [[[r, d] for r, d in zip(rep, de)], [vt.idx(x) for x in vals]])
         classes = classify_v1_pages([(p[0], p[1]) for p in pages], max_def) if v == 1 else []
+        if v == 2:
+            # the v2 pages the harness cuts (row boundaries, num_rows = rows starting in the page) satisfy the
+            # hypotheses of C15_v2_pages_whole
+            ctx.correspondence("Coq pages_aligned/v2_cut_ok (hypotheses of C15_v2_pages_whole) hold for the v2 pages generated", case,
+                               guard, [True, True])
         if FX:
             classes = []            # the repaired loop has no bad cuts (C15_pages_full_repaired)
         elif v == 1:
